@@ -438,7 +438,7 @@ func hasTerminal(b *gen.Block) bool {
 // a task - so the parent may only continue after the LAST inner token is gone.
 
 type msDesc struct {
-	Branches []int  `json:"branches"` // per inner start event: number of tasks before its end event (0 = straight to end)
+	Branches []int  `json:"branches"` // per inner start event: number of tasks before its end event (0 = straight to end, -1 = its only outgoing flow carries a false condition: the token is consumed at the start event itself)
 	Nest     bool   `json:"nest"`     // the sub-process sits inside a parallel branch of the parent
 	Perturb  uint64 `json:"perturb"`
 	Schedule []int  `json:"schedule"`
@@ -459,7 +459,10 @@ func buildMS(d msDesc) *gen.Graph {
 			cur = t
 		}
 		e := ib.Add(gen.KEnd)
-		ib.Connect(cur, e)
+		f := ib.Connect(cur, e)
+		if n < 0 {
+			f.Formal, f.Cond = true, gen.False()
+		}
 	}
 	after := b.Add(gen.KTask)
 	en := b.Add(gen.KEnd)
@@ -507,9 +510,9 @@ func TestC12MultiStart(t *testing.T) {
 	}
 	rapid.Check(t, func(rt *rapid.T) {
 		d := msDesc{Nest: rapid.Bool().Draw(rt, "nest"), Perturb: uint64(rapid.IntRange(0, 400).Draw(rt, "perturb"))}
-		n := rapid.IntRange(2, 3).Draw(rt, "starts")
+		n := rapid.IntRange(1, 3).Draw(rt, "starts")
 		for i := 0; i < n; i++ {
-			d.Branches = append(d.Branches, rapid.IntRange(0, 2).Draw(rt, "len"))
+			d.Branches = append(d.Branches, rapid.IntRange(-1, 2).Draw(rt, "len"))
 		}
 		c := &drive.Case{Graph: buildMS(d), Lang: "expr", Perturb: d.Perturb}
 		pick := func(k int) int {
@@ -528,7 +531,7 @@ func TestC12MultiStart(t *testing.T) {
 		rec.End(hash, out.Symptom)
 		mixed := false
 		for _, x := range d.Branches {
-			if x != d.Branches[0] {
+			if x != d.Branches[0] || x < 0 {
 				mixed = true
 			}
 		}
